@@ -9,9 +9,11 @@ FILES = ["src/reuse/header.py", "src/reuse/comment.py", "src/reuse/extract.py", 
 
 
 def replay(w):
+    if w.get("harness"):
+        return True  # order witnesses are re-run by the harness itself (concrete())
     try:
-        once = hc.annotate_real(w["text"], w["style"], w["multi"], request=w.get("request", "full"))
-        twice = hc.annotate_real(once, w["style"], w["multi"], request=w.get("request", "full"))
+        once = hc.annotate_real(w["text"], w["style"], w["multi"], merge=w.get("merge", False), request=w.get("request", "full"))
+        twice = hc.annotate_real(once, w["style"], w["multi"], merge=w.get("merge", False), request=w.get("request", "full"))
     except Exception:  # noqa
         return True
     return once != twice
@@ -30,14 +32,23 @@ def run(ctx):
             conds.append(xh.Cond(f"idem {name} multi={multi} request={req} body=2 lines", "HDR.py", "_idem", {"style": name, "multi": multi, "replace": True, "nlines": 2, "request": req, "carve": carve}, timeout=400 if ctx.tier == "quick" else 2000, twin="_idem_reach"))
     for name, multi in (("PythonCommentStyle", False), ("CCommentStyle", True), ("HtmlCommentStyle", True)):
         conds.append(xh.Cond(f"idem {name} multi={multi}: an existing header of more than 4 KiB (80 holders) is found again", "HDR.py", "_idem", {"style": name, "multi": multi, "replace": True, "nlines": 2, "kinds": [2, 8, 10], "first": 10, "carve": carve}, timeout=400 if ctx.tier == "quick" else 2000, twin="_idem_reach"))
-    ctx.functions_encoded = ["reuse.header.find_and_replace_header, create_header, _create_new_header, _find_first_spdx_comment, _indices_of_newlines, _extract_shebang, place_header", "reuse.comment.CommentStyle.comment_at_first_character / create_comment (every style)", "reuse.extract.contains_reuse_info / extract_reuse_info"]
+    # --year given twice with --merge-copyrights: the range the first run writes must be the one the merge re-creates
+    for name, multi in (("PythonCommentStyle", False), ("CCommentStyle", True)):
+        for merge in (True, False):
+            conds.append(xh.Cond(f"idem {name} multi={multi} merge={merge} request=two --year options body=2 lines", "HDR.py", "_idem", {"style": name, "multi": multi, "replace": True, "merge": merge, "nlines": 2, "request": "two-years", "carve": carve}, timeout=400 if ctx.tier == "quick" else 2000, twin="_idem_reach"))
+    # the second run happens in another process: the iteration order of the requested sets must not show in the header
+    for name, multi in (("PythonCommentStyle", False), ("CCommentStyle", True), ("HtmlCommentStyle", True)):
+        conds.append(xh.Cond(f"header independent of set iteration order ({name} multi={multi}; holders / contributors differing only in case)", "HDR.py", "_order", {"style": name, "multi": multi}, timeout=400 if ctx.tier == "quick" else 2000, twin="_order_reach"))
+    ctx.functions_encoded = ["reuse.cli.annotate.get_year, reuse.copyright.make_copyright_line / merge_copyright_lines (request with two --year options)", "reuse.header.find_and_replace_header, create_header, _create_new_header, _find_first_spdx_comment, _indices_of_newlines, _extract_shebang, place_header", "reuse.comment.CommentStyle.comment_at_first_character / create_comment (every style)", "reuse.extract.contains_reuse_info / extract_reuse_info"]
     ctx.bounds = dict(hc.BOUNDS)
     ctx.stubs = hc.STUBS
     ctx.outside = ["--no-replace (stacking a new header is that option's documented meaning)", "custom templates, --force-dot-license plumbing (C11), prefixes/years other than the concrete request", "bodies longer than the bound; bodies that already hold foreign REUSE tags"]
     ctx.assumptions = [f"PYRE == re on {n} comparisons this run", "after the solver fixes the body shape the text is concrete: the solver contributes exhaustive exploration of the shape space"]
 
     def confirm(c, ex):
-        w = {"text": ex["text"], "style": ex["style"], "multi": ex["multi"], "request": ex.get("request", "full")}
+        if c.func == "_order":
+            return f"set-order:{ex['style']}:{ex['kind']}:{ex['lines']}", f"{ex['style']}: {ex['kind']} {ex['lines']}: {ex['why']}; {ex['header_in_one_order']!r} vs {ex['header_in_the_other_order']!r}", {"harness": "HDR.py::_order", "explain": ex}
+        w = {"merge": bool(c.params.get("merge", False)), "text": ex["text"], "style": ex["style"], "multi": ex["multi"], "request": ex.get("request", "full")}
         if not replay(w):
             return None
         key = ex.get("known_key") or f"idem:{ex['style']}:{ex['multi']}:{ex['body']}"
